@@ -35,16 +35,15 @@ Definition conformant (earlier : list exch) (q : pkt) (srx stx : Z) (r : pkt) : 
   reply_basic q srx stx r \/ reply_inter earlier q srx r.
 
 (* ---- physics ---- *)
-(* NTP era of a time; Time64 values repeat every 2^32 s *)
-Definition era_of (t : Z) : Z := (time_sec t - ntp_epoch) / secs_per_era.
 Definition time_ok (t : Z) : Prop := 0 <= time_sec t < 2^60.
 
 (* a copy of the reply of exchange e arrives at the socket of request q with
    kernel receive stamp crx: after the request left (client_clock_strict: the
-   client's stamps strictly increase, within one NTP era) and not before the
+   client's stamps strictly increase; less than 2^32 s later, the period of
+   Time64 values - the exchange may straddle an NTP era rollover) and not before the
    server sent it (whichever of its two transmit stamps is taken) *)
 Definition arrival_ok (q : reqinfo) (e : exch) (crx : Z) : Prop :=
-  q_ctx q < crx /\ era_of (q_ctx q) = era_of crx /\ time_ok (q_ctx q) /\ time_ok crx /\
+  q_ctx q < crx /\ crx - q_ctx q < secs_per_era * nanos_per_sec /\ time_ok (q_ctx q) /\ time_ok crx /\
   e_stx e - e_theta e <= crx /\ e_rtx e - e_theta e <= crx.
 
 (* a handling e of a copy of request e_q e, given the earlier handlings: the copy
